@@ -23,6 +23,16 @@ def run(ctx):
     transfers = [(m, t, e) for m in msgs for t in topics for e in errs]
     wants = [()] + [(w,) for w in transfers[:4]] + [(a, b2) for a in transfers[:3] for b2 in transfers[4:6]]
     calls = [(q, m, t) for q in ("nil", "closed") for m in msgs for t in topics]
+    # a zero-length message is the same message whether the slice is nil or empty
+    zs = ["nil", "-"]
+    for wm in zs:
+        for cm in zs:
+            for e in errs:
+                w = ((wm, "61", e),)
+                for seq in ([("nil", cm, "61")], [("nil", cm, "61"), ("nil", wm, "61")], [("nil", "01", "61")], [("closed", cm, "61"), ("nil", cm, "61")]):
+                    sc = ["pubmock " + ";".join("%s:%s:%s" % x for x in w)] + ["pcall %s %s %s" % c for c in seq] + ["cleanup"]
+                    cases.append(sc)
+                    meta.append(("pub", tuple((("" if m in zs else m), t, e2) for m, t, e2 in w), [(q, ("" if m in zs else m), t) for q, m, t in seq]))
     for w in wants:
         for n in range(0, maxlen + 1):
             seqs = list(itertools.product(calls, repeat=n))
